@@ -131,6 +131,48 @@ example : ∃ s, init exPs true = .ok s ∧ toUnity s = .error "RuntimeError" :=
   obtain ⟨s, h, hs⟩ := init_ok exPs_nonDeg (by decide)
   exact ⟨s, h, refuse_double_to s (by obtain ⟨_, _, d, hd, _⟩ := hs; simp [hd]) hs.1⟩
 
+/-- adding a column to a chain (`fill_default_array`) changes neither the rescaling flag nor the stored ranges -/
+theorem fill_keeps_flag_and_ranges (c c' : Chain ℝ) (k : String) (v : List ℝ) (h : fillArray c k v = .ok c') :
+    c'.rescaled = c.rescaled ∧ c'.dic = c.dic := by
+  unfold fillArray at h
+  split at h
+  · simp at h
+  · split at h
+    · split at h
+      · simp only [Except.ok.injEq] at h
+        subst h
+        exact ⟨rfl, rfl⟩
+      · simp at h
+    · simp at h
+
+/-- **a second rescaling in the same direction is refused — also after the chain was extended by a column**: the column
+    added to a rescaled chain does not re-open it, so the stored ranges cannot be overwritten -/
+theorem refuse_to_after_fill (c c' : Chain ℝ) (k : String) (v : List ℝ) (hd : c.dic.isSome = true)
+    (hr : c.rescaled = true) (h : fillArray c k v = .ok c') : toUnity c' = .error "RuntimeError" := by
+  obtain ⟨h1, h2⟩ := fill_keeps_flag_and_ranges c c' k v h
+  exact refuse_double_to c' (by rw [h2]; exact hd) (by rw [h1]; exact hr)
+
+/-- … and the refused call leaves the extended chain as it is: whole histories of further `rescale_to_unity` calls are
+    refused one by one -/
+theorem refuse_to_history_after_fill (c c' : Chain ℝ) (k : String) (v : List ℝ) (hd : c.dic.isSome = true)
+    (hr : c.rescaled = true) (h : fillArray c k v = .ok c') (n : ℕ) :
+    runOps c' (List.replicate n Op.toU) = (List.replicate n "RuntimeError", c') := by
+  have hrefuse := refuse_to_after_fill c c' k v hd hr h
+  induction n with
+  | zero => rfl
+  | succ n ih => simp [List.replicate_succ, runOps, step, hrefuse, ih]
+
+/-- a rescaled two-column chain (unit samples, physical ranges stored) -/
+def exRescaled : Chain ℝ :=
+  ⟨[("h0", [0, 1, 0.5]), ("om", [1, 0, 0.25])], some [("h0", (75, 65)), ("om", (0.4, 0.2))], true⟩
+
+/-- non-vacuity: a third column added to the rescaled chain, the second rescaling refused -/
+example : ∃ c', fillArray exRescaled "extra" [3, 1, 2] = .ok c' ∧ toUnity c' = .error "RuntimeError" := by
+  have h : fillArray exRescaled "extra" [3, 1, 2]
+      = .ok { exRescaled with params := Dict.set exRescaled.params "extra" [3, 1, 2] } := by
+    simp [fillArray, listParams, exRescaled, Dict.get?]
+  exact ⟨_, h, refuse_to_after_fill exRescaled _ _ _ (by simp [exRescaled]) (by simp [exRescaled]) h⟩
+
 /-- **state_refines_two_state_spec**: for *every* history of rescale / un-rescale calls the object
     behaves like the two-state machine `specOps`: the same calls are refused, and after the history
     it holds exactly the physical samples (flag off) or exactly their unit-cube image together with
